@@ -358,6 +358,12 @@ def cases(tier, what="forward"):
             shp = [(N, i), (o, i)] + ([(o,)] if bias else [])
             add("linear", shp); add("linear", shp, form="layer")
             if o == 1: add("linear", shp, form="neuron")
+            # one operand all zeros in turn (a bias after zeros_, a zero input): present-but-zero is not "absent"
+            for z in range(len(shp)):
+                if N == 3 and z < 2: continue
+                zp = ["zeros" if j == z else "generic" for j in range(len(shp))]
+                add("linear", shp, pats=zp); add("linear", shp, pats=zp, form="layer")
+                if o == 1: add("linear", shp, pats=zp, form="neuron")
     if fw:
         add("linear", [(2, 3), (2, 2)]); add("linear", [(2, 3), (2, 2), (2,)])                    # in_features mismatch -> raise
     # --- conv1d
@@ -369,6 +375,9 @@ def cases(tier, what="forward"):
                 if not fw and bias and (N, Ci, Co) not in ((2, 2, 2), (1, 1, 1)): continue
                 shp = [(N, Ci, L), (Co, Ci, k)] + ([(Co,)] if bias else [])
                 add("conv1d", shp, {"stride": s, "padding": p, "dilation": d})
+                if bias and s == 1 and d == 1:
+                    add("conv1d", shp, {"stride": s, "padding": p, "dilation": d}, pats=["generic", "generic", "zeros"])
+                    add("conv1d", shp, {"kernel_size": k, "stride": s, "padding": p, "dilation": d}, pats=["generic", "generic", "zeros"], form="layer")
                 if (N, Ci, Co) in ((2, 2, 2), (1, 1, 1)):
                     add("conv1d", shp, {"kernel_size": k, "stride": s, "padding": p, "dilation": d}, form="layer")
     if fw:
@@ -410,6 +419,8 @@ def cases(tier, what="forward"):
             bias = (n + N) % 2 == 0
             shp = [(N, Ci, H, W), (Co, Ci) + k] + ([(Co,)] if bias else [])
             add("conv2d", shp, dict(args))
+            if bias and n % 3 == 0:
+                add("conv2d", shp, dict(args), pats=["generic", "generic", "zeros"])
             if fw or n % 4 == 1:
                 add("conv2d", shp, dict(args, kernel_size=sp(k, 1)), form="layer")
             if (fw or n % 3 == 0):
